@@ -14,7 +14,7 @@ sed -i "s#/verif/.target#$S/target#" $S/harness/.cargo/config.toml
 cp /verif/known_findings.json $S/out/
 export VERIF_DIR_OVERRIDE=$S/out CARGO_NET_OFFLINE=true
 run_check() { (cd $S/harness && cargo build --release --offline >/dev/null 2>&1) || { echo "BUILD-FAIL"; return 2; }; $S/target/release/vcheck "$1" quick; }
-LOG=/verif/seeded/SELFTEST-supplement.log
+LOG=/verif/seeded/${LOG_NAME:-SELFTEST-supplement.log}
 FILTER=${SEED_FILTER:-.}
 : > $LOG.tmp
 fail=0
